@@ -257,5 +257,8 @@ func (r *reader) compatible(x *core.Explorer, hp *hdrPath, s *hdrState, stage in
 // one of the reader's anchor functions, so that extracting a helper (or
 // moving a statement into one) does not change what the path rules see.
 func (rd *reader) inl() func(*ssa.Function, int) bool {
-	return func(f *ssa.Function, depth int) bool { return f == rd.setRem }
+	// the opcode predicates are inlined too: a parser phrased with isControl(t) / isData(t) then yields the same
+	// branch literals as one phrased with a switch over the opcode constants
+	isC, isD := rd.c.P.FuncOpt("isControl"), rd.c.P.FuncOpt("isData")
+	return func(f *ssa.Function, depth int) bool { return f == rd.setRem || (f != nil && (f == isC || f == isD)) }
 }
